@@ -149,43 +149,106 @@ example : validate [valuesOfCorrectType] Witness.schema Witness.docUsed = .ok []
 /- ================= OverlappingFieldsCanBeMerged (the repaired algorithm, DESIGN §7 R2d) ================= -/
 
 /-- (a) The fuel that the entry point `overlapRun` (one `findConflictsWithinSelectionSet` call of an
-    observer) hands out is never exhausted: `2·F²+2` nested `findConflict` calls (`F` = field nodes
-    of the selection set and of all fragment definitions), `K+2` frames per (E) chain and `2·K²+2`
-    frames per `check` recursion (`K` = fragment definitions) — for every schema view, document,
-    link state, selection set and every SYMMETRIC `comparedFragmentPairs` (symmetry is an invariant
-    of the rule state: it holds initially and the theorem returns it).  So the recursion of the
-    real code, which has no fuel, is well-founded on every input, cyclic fragments included. -/
+    observer) hands out is never exhausted — `overlapFuel` nested `findConflict` calls, `K+2` frames
+    per (E) recursion and `2·K²+2` frames per `check` recursion (`K` = fragment definitions) — for
+    every schema view, document, link state, selection set and every manager state whose
+    fragment-pair memo is SYMMETRIC (an invariant of the rule state: it holds initially and the
+    theorem returns it; the memo of (selection set, fragment) comparisons may contain anything).
+    So the recursion of the real code, which has no fuel, is well-founded on every input, cyclic
+    fragments included: termination follows from the two memos alone. -/
 theorem C02_overlap_fuel_suffices (s : SV) (d : QueryDoc) (l : Links) (parent : Option Definition)
-    (sels : Selections) (P : Pairs) (hP : PSym P) :
-    ∃ P' cs, overlapRun s d l parent sels P = some (P', cs) ∧ PSym P' := by
-  obtain ⟨⟨P', cs⟩, h, a⟩ := overlapRun_ok s d l parent sels P hP
-  exact ⟨P', cs, h, a.1⟩
+    (sels : Selections) (st : OSt) (hP : PSym st.pairs) :
+    ∃ st' cs, overlapRun s d l parent sels st = some (st', cs) ∧ PSym st'.pairs := by
+  obtain ⟨⟨st', cs⟩, h, a, _⟩ := overlapRun_ok s d l parent sels st hP
+  exact ⟨st', cs, h, a⟩
 
-/-- The key argument of (a), isolated: (1) `findConflict` at in-progress set `C` consults
-    `findConflictsBetweenSubSelectionSets` only at `C` extended by the triple of the two fields it
-    compares, and only when that triple is not in `C` (so along the recursion the set strictly
-    grows and stays duplicate-free); (2) a duplicate-free set of `(fieldA, fieldB, exclusive)`
-    triples over `F` field nodes has at most `2·F²` elements.  Hence the depth of the
-    `findConflict` recursion is at most `2·F²`. -/
-theorem C02_overlap_depth_bounded :
-    (∀ (s : SV) (sub sub' : Bool → FInfo → FInfo → Comparing → Pairs → Option (Pairs × List Conflict))
-        (excl0 : Bool) (a b : FInfo) (C : Comparing) (P : Pairs),
-        (∀ excl, (a.key, b.key, excl) ∉ C →
-          sub excl a b ((a.key, b.key, excl) :: C) P = sub' excl a b ((a.key, b.key, excl) :: C) P) →
-        findConflictBody s sub excl0 a b C P = findConflictBody s sub' excl0 a b C P) ∧
-    (∀ (U : Univ) (C : Comparing), C.Nodup → (∀ t ∈ C, t ∈ allTriples (U.map (·.1))) →
-        C.length ≤ 2 * U.length * U.length) :=
-  ⟨findConflictBody_calls_fresh, comparing_length_le⟩
+/-- The polynomial cost bound (DESIGN C02; impossible before the memo of (selection set, fragment)
+    comparisons).  `steps` counts every call of `findConflict`, of
+    `collectConflictsBetweenFieldsAndFragment` and of `collectConflictsBetweenFragments.check`.
+    ONE observer call (`findConflictsWithinSelectionSet(sels)`) takes at most
+        overlapStepBound d sels = (N+1)² · (2·K² + 2·(F+1)·K + 1)
+    of them, where `N` / `F` = field-and-spread nodes / field nodes of `sels` and of all fragment
+    definitions and `K` = fragment definitions — for EVERY document (cyclic fragments included), every
+    link state and every manager state reachable in a validation run (`PSym`; the content of the
+    two memos only makes the call cheaper). -/
+theorem C02_overlap_ticks (s : SV) (d : QueryDoc) (l : Links) (parent : Option Definition)
+    (sels : Selections) (st : OSt) (hP : PSym st.pairs) :
+    ∃ st' cs, overlapRun s d l parent sels st = some (st', cs) ∧
+      st'.steps ≤ st.steps + overlapStepBound d sels := by
+  obtain ⟨⟨st', cs⟩, h, _, _, k⟩ := overlapRun_ok s d l parent sels st hP
+  exact ⟨st', cs, h, k⟩
 
-/-- (b) The rule model has no panic outcome: from a symmetric `comparedFragmentPairs` every observer
-    call returns an error list (and a symmetric state); and in ANY state the only non-`ok` outcome
-    the step function can produce at all is the out-of-fuel marker — there is no Go panic site left
-    in the rule (`Schema.Types[...]` is nil-guarded in `doTypesConflict`), so not even `Closed s`
-    is needed. -/
-theorem C02_overlap_no_panic (s : Schema) (d : QueryDoc) (P : Pairs) (e : Event) :
-    (PSym P → ∃ P' errs, overlappingFieldsStep s.view d P e = .ok P' errs ∧ PSym P') ∧
-    (∀ m, overlappingFieldsStep s.view d P e = .panic m → m = overlapOutOfFuel) :=
-  ⟨overlappingFieldsStep_ok s.view d P e, fun m h => overlappingFieldsStep_panic_only_fuel s.view d P e m h⟩
+/-- the bound of `C02_overlap_ticks`, spelled out -/
+theorem C02_overlap_step_bound_poly (d : QueryDoc) (sels : Selections) :
+    overlapStepBound d sels =
+      (reachableNodeCount d sels + 1) * (reachableNodeCount d sels + 1) *
+        (2 * d.frags.length * d.frags.length + 2 * (reachableFieldCount d sels + 1) * d.frags.length + 1) := rfl
+
+/-- Whole validation: over ANY list of events (in particular the events of `walkDoc`), started from
+    the initial manager, the rule returns normally on every event and takes at most the sum of the
+    per-observer-call bounds (`eventBound d e = overlapStepBound d sels` for the selection set the
+    observer of `e` works on, `0` for the events the rule ignores).  `overlapFold` is the sequence
+    of states the engine threads for the rule (`overlap_running_step`). -/
+theorem C02_overlap_ticks_validation (s : SV) (d : QueryDoc) (evs : List Event) :
+    ∃ st', overlapFold s d OSt.init evs = some st' ∧ st'.steps ≤ sumBounds d evs := by
+  obtain ⟨st', h, _, k⟩ := overlapFold_steps s d evs OSt.init PSym_nil
+  refine ⟨st', h, ?_⟩
+  simpa [OSt.init] using k
+
+/-- … hence a polynomial in the size of the document: if every selection set an observer is called
+    for has at most `n` field-and-spread nodes and `f` field nodes (every selection set of the
+    document does, for `n` / `f` the node / field count of the document: the events of `walkDoc` carry
+    nodes of the document — `walkDoc_opsIn`, `walkDoc_cov`), the whole validation takes at most
+        #events · (n + Nf + 1)² · (2·K² + 2·(f + Ff + 1)·K + 1)
+    steps (`Nf`/`Ff` = nodes / fields of the fragment definitions; #events is bounded by
+    `C02_walk_events_bound`). -/
+theorem C02_overlap_ticks_validation_poly (s : SV) (d : QueryDoc) (evs : List Event) (n f : Nat)
+    (hin : ∀ e ∈ evs, ∀ sels, eventSels e = some sels → countNodes sels ≤ n ∧ countFields sels ≤ f) :
+    ∃ st', overlapFold s d OSt.init evs = some st' ∧
+      st'.steps ≤ evs.length *
+        ((n + fragNodeCount d + 1) * (n + fragNodeCount d + 1) *
+          (2 * d.frags.length * d.frags.length + 2 * (f + fragFieldCount d + 1) * d.frags.length + 1)) := by
+  obtain ⟨st', h, k⟩ := C02_overlap_ticks_validation s d evs
+  refine ⟨st', h, Nat.le_trans k ?_⟩
+  clear k h
+  induction evs with
+  | nil => simp [sumBounds, sumNat]
+  | cons e es ih =>
+    have ih' := ih (fun e' he' => hin e' (List.mem_cons_of_mem _ he'))
+    have he : eventBound d e ≤ (n + fragNodeCount d + 1) * (n + fragNodeCount d + 1) *
+        (2 * d.frags.length * d.frags.length + 2 * (f + fragFieldCount d + 1) * d.frags.length + 1) := by
+      unfold eventBound
+      cases hs : eventSels e with
+      | none => exact Nat.zero_le _
+      | some sels =>
+        obtain ⟨h1, h2⟩ := hin e (List.mem_cons_self ..) sels hs
+        simp only
+        rw [C02_overlap_step_bound_poly]
+        unfold reachableNodeCount reachableFieldCount
+        apply Nat.mul_le_mul
+        · exact Nat.mul_le_mul (by omega) (by omega)
+        · have : 2 * (countFields sels + fragFieldCount d + 1) * d.frags.length ≤
+              2 * (f + fragFieldCount d + 1) * d.frags.length :=
+            Nat.mul_le_mul_right _ (Nat.mul_le_mul_left _ (by omega))
+          omega
+    generalize (n + fragNodeCount d + 1) * (n + fragNodeCount d + 1) *
+      (2 * d.frags.length * d.frags.length + 2 * (f + fragFieldCount d + 1) * d.frags.length + 1) = B at he ih' ⊢
+    simp only [sumBounds, List.map_cons, sumNat_cons, List.length_cons] at ih' ⊢
+    rw [Nat.succ_mul]
+    omega
+
+/-- (b) The rule model has no panic outcome: from a manager whose fragment-pair memo is symmetric
+    every observer call returns an error list (and such a manager); and in ANY state the only
+    non-`ok` outcome the step function can produce at all is the out-of-fuel marker — there is no Go
+    panic site left in the rule (`Schema.Types[...]` is nil-guarded in `doTypesConflict`), so not even
+    `Closed s` is needed. -/
+theorem C02_overlap_no_panic (s : Schema) (d : QueryDoc) (st : OSt) (e : Event) :
+    (PSym st.pairs → ∃ st' errs, overlappingFieldsStep s.view d st e = .ok st' errs ∧ PSym st'.pairs) ∧
+    (∀ m, overlappingFieldsStep s.view d st e = .panic m → m = overlapOutOfFuel) :=
+  ⟨fun h => by
+      obtain ⟨st', errs, h1, h2, _⟩ := overlappingFieldsStep_ok s.view d st e h
+      exact ⟨st', errs, h1, h2⟩,
+   fun m h => overlappingFieldsStep_panic_only_fuel s.view d st e m h⟩
 
 /-- `C02_validate_no_panic_parsed_partial` with OverlappingFieldsCanBeMerged: every rule list drawn
     from the modelled rules other than ValuesOfCorrectType (+ twin) returns an error list on every
@@ -265,16 +328,14 @@ theorem C02_validate_default_no_panic_parsed (s : Schema) (d : QueryDoc)
   exact List.mem_of_find?_eq_some hn
 
 /-
-  NOT a theorem (and false for the repaired code as it is): the polynomial cost bound
-      C02_overlap_ticks : ticks ≤ c · nodes(d)² · (fragments(d) + 1)²
-  of DESIGN C02.  The in-progress set only cuts cycles; a pair of fields that has been compared is
-  compared again whenever it is reached along another path.  On
+  History: with the in-progress set of the first repair (R2d) the rule terminated but was exponential —
       { u { ...F } }   fragment F on Node { u { u { … u { id ...F } … ...F } ...F } }      (k levels)
-  every pair `(u_i, u_j)` is reached along exponentially many paths: the real rule needs 5 s for
-  k = 10 (151 bytes), 33 s for k = 11, 214 s for k = 12 (173 bytes), the model 0.65 s / 4.6 s / 29 s
-  (X-overlap, family `fragment-cycle-every-level`).  The depth bound above (`2·F²`) is tight for the
-  recursion DEPTH only.  The memoisation of completed `(selection set, selection set, exclusive)`
-  comparisons proposed in DESIGN C02 (b) would give the polynomial bound.
+  took 5 s for k = 10, 33 s for k = 11, 214 s for k = 12 (173 bytes).  With the memo of (selection set,
+  fragment) comparisons (one per `findConflictsWithinSelectionSet` call) the same family takes 3 ms at
+  k = 12, 72 ms at k = 48, 0.7 s at k = 96 (about k³), and the bound is `C02_overlap_ticks` above.
+  The memo is per top-level call because the walker links fields as it goes: a comparison cached
+  while a fragment was only partly linked must not suppress the same comparison later (with a memo
+  per rule instance the rule's verdict changed on 0.2 % of the cyclic documents of X-overlap).
 -/
 
 /-- kernel-checked: on `{ u { ...F } } fragment F on Node { u { id ...F } ...F }` — a fragment that
@@ -291,7 +352,10 @@ theorem C02_overlap_cyclic_witness :
 #print axioms C02_panic_free_rule_names
 #print axioms C02_validate_no_panic_parsed_partial
 #print axioms C02_overlap_fuel_suffices
-#print axioms C02_overlap_depth_bounded
+#print axioms C02_overlap_ticks
+#print axioms C02_overlap_step_bound_poly
+#print axioms C02_overlap_ticks_validation
+#print axioms C02_overlap_ticks_validation_poly
 #print axioms C02_overlap_no_panic
 #print axioms C02_validate_no_panic_with_overlap_partial
 #print axioms C02_overlap_cyclic_witness
